@@ -407,3 +407,9 @@ for _p, _salt in (("C02", 5102), ("C12", 5112)):
     CHECKS[_p]["rule"] += (" Stage offs (Model/Offsets.v): 2000 pairs of offset maps (0-4 of 5 sources, file sequences and positions 0-3 so that ties and "
                            "equal offsets abound, one map in six nil) and a limit; the real OffsetsBySource.Advance and LimitAge (entries sorted by source, nil-ness) "
                            "against the model. non-trivial: both maps non-empty.")
+
+CHECKS["C03"]["stages"] = CHECKS["C03"]["stages"] + [dict(sub="rowfile", quick=40, thorough=2000, shards=8, shard_min=64, shrink=["points"], seed_salt=3003)]
+CHECKS["C03"]["rule"] += (" Stage rowfile (Model/RowCodec.v, Model/CorrRow.v): generated tables and points, flushed; the newest file store is opened, "
+                          "decompressed, its header skipped, and the remaining bytes are read by the MODEL's decoder of the row format: they must parse row after "
+                          "row to the end with nothing left over, the keys read must be exactly the keys a disk-only scan reports, and every row must have "
+                          "one column per stored field. non-trivial: at least two rows.")
